@@ -66,7 +66,7 @@ CHECKS = {
    "Stateless model checking (<=2/3 deviations) of a server task (new, accept) against a client task (connect, 1-3 messages of mixed size incl. attachments, drop) so that accept-first, connect-first, sends-before-accept and client-finished-before-accept all arise as schedules, with a fake and with a kernel-enforced small send buffer; plus forked clients that exit before accept (1..5/20 messages), 1..50/200 servers alive at once, servers dropped unused, exec'ed child while a server is alive, a two-way bootstrap (the client's first message names a second server it created after connecting), rendezvous files counted against servers still alive; oracle: first message + rest in order then disconnected, distinct names, empty temp root and no listening descriptor afterwards.",
    E1NOTE, "controlled-scheduler stateless exploration (E1) + sequential process-level cases", "DESIGN.md §4 C08"),
  "C19": ("model_checking",
-   "Explicit-state BFS over the reference model (ideal unbounded FIFO channels with counted handles, endpoints in transit, regions, a receiver set, channel creation plain and through a one-shot server, a one-shot client that leaves without sending); every transition is one program executed from scratch on the os, memfd and in-process builds with every observable result compared with the model (values, order, empty, disconnected, send failures; select results per member); plus a family of long-queue programs (31..64 queued on one channel [3..64 thorough], consumed by each receive variant one step past the end or through the set, sender kept or dropped) on the three builds.",
+   "Explicit-state BFS over the reference model (ideal unbounded FIFO channels with counted handles, endpoints in transit, regions, a receiver set, channel creation plain and through a one-shot server, a one-shot client that leaves without sending); every transition is one program executed from scratch on the os, memfd and in-process builds with every observable result compared with the model (values, order, empty, disconnected, send failures; select results per member); plus a family of long-queue programs (31..64 queued on one channel [3..64 thorough], consumed by each receive variant one step past the end or through the set, sender kept or dropped) and 12 queue-only programs with larger messages on the three builds (the OS builds block in send when the socket buffer is full: a recorded known finding, printed as KNOWN-FINDING, exit 0).",
    TRUST + "the model graph is explored completely up to depth 6 with <=2 channels (quick) / depth 7 with <=3 channels (thorough), 2 queued messages, 4 live handles; a state cap, if hit, is reported and makes exhaustive=false; agreement between builds is via agreement with the same model.", "explicit-state model search with full trace conformance replay on three builds of the implementation", "DESIGN.md §4 C19"),
  "C20": ("model_checking",
    "Stateless model checking (<=2 deviations, 3 for single-stream scenarios thorough; scheduling points before every system call/futex wait and after every transmission) of tasks that convert 1-2 receivers into streams, feed and consume them (block_on or a hand-written poll loop with a parking waker) against the real routing thread; oracle: each stream yields its channel's messages once, in order, then ends; a Pending poll is followed by a wake of the waker of the most recent poll (the manual loop uses a fresh waker for every poll; else exact deadlock); streams do not influence one another.",
